@@ -44,6 +44,12 @@ fn main() {
         Tier::Thorough => 3000,
     }));
     let o = Opts { tier, seed, replay, budget, extra };
-    let code = bpverif::props::dispatch(&id, &o);
+    let code = match bpverif::evidence::guarded(|| bpverif::props::dispatch(&id, &o)) {
+        Ok(c) => c,
+        Err(m) => {
+            eprintln!("machinery: the harness panicked outside a guarded case (not a verdict): {}", m);
+            2
+        }
+    };
     std::process::exit(code);
 }
